@@ -370,6 +370,24 @@ PROPS["C17"] = {
     "explanation": "BufferedOps.tla models the buffered wrapper's coalescing of a batch of start / forced start / provide-once / stop operations against applying them one by one (same kept set, every advertisement asked for last is queued) for all batches up to length 6 over 2 keys, with two negative controls; a real SweepingProvider (optionally behind the buffered wrapper) runs histories of start/once/stop calls, swarm growth and shrinkage, outages, restarts over several reprovide cycles of virtual time against a router and message sender that answer from a simulated swarm; TLC validates every advertisement (exactly the r nearest peers, current addresses), the reprovide deadline, catch-up after outages and restarts, and silence after stop against SweepTrace.tla.",
 }
 
+PROPS["C14"] = {
+    "exhaustive": [
+        {"spec": "Lifecycle.tla", "cfg": "Lifecycle_quick.cfg"},
+        {"spec": "Lifecycle.tla", "cfg": "Lifecycle_neg_nowait.cfg", "expect": "violation"},
+        {"spec": "Lifecycle.tla", "cfg": "Lifecycle_neg_ignores.cfg", "expect": "violation"},
+        {"spec": "Lifecycle.tla", "cfg": "Lifecycle_neg_second.cfg", "expect": "violation"},
+    ],
+    "drivers": [{"test": "TestLifecycle", "trace_spec": "LifecycleTrace.tla", "trace_cfg": "LifecycleTrace.cfg", "inv_cfg": {"C14": "LifecycleTrace_C14.cfg"}}],
+    "assumptions": [
+        "a goroutine counts as started by the instance when it is in the bubble after Close, was not there before the instance was built, and is not one of the harness's own (operation and Close callers, scripted host)",
+        "operations in flight wait at gated message senders / datastores; the environment eventually answers every parked request (with an error once Close has been called), so an operation that is still running at the end is blocked by the library itself",
+        "virtual time: Close or an operation that has not returned after 200 virtual minutes of answered requests counts as hung; a child process that makes no progress for 30 s of real time counts as wedged",
+        "constructor failures are provoked through public options only (invalid mode after the stores were started, invalid validator combination, invalid LAN mode in the dual client, failing provider-manager option in the accelerated client, invalid replication factor in the sweeping provider)",
+        "the dual provider wrapper and the refresh manager on its own are not exercised (the refresh manager is covered inside the standard client)",
+    ],
+    "explanation": "Lifecycle.tla models the shutdown protocol the components share (signal, wait for every background goroutine, close what is owned, return; goroutines leave when signalled; operations in flight end; one or two Close calls) and is model-checked for 'nothing runs after Close returned', 'every Close returns' and 'every operation ends' (liveness) with three negative controls; the real standard client (five configurations), dual client, accelerated client, provider manager, value store, keystore, resettable keystore, sweeping provider and buffered wrapper are built, given operations that wait at gated senders and datastores, and closed one to three times at chooser-picked instants; failed constructions are provoked through public options; TLC validates returns, panics and the goroutine census against LifecycleTrace.tla.",
+}
+
 
 def overlay_file(scratch, name):
     """Writes the -overlay json for an internal-package driver (add-only mappings)."""
@@ -1460,7 +1478,67 @@ def mut_c17_stale_addrs(run):
     return None
 
 
+def _c14(run):
+    return "comp" in run[0]
+
+
+def mut_c14_left(run):
+    if not _c14(run):
+        return None
+    for i, ev in enumerate(run):
+        if ev["e"] == "Quiesce":
+            r = copy.deepcopy(run)
+            r[i]["left"] = ["select @ github.com/libp2p/go-libp2p-kad-dht.(*IpfsDHT).rtPeerLoop <- sync.(*WaitGroup).Go"]
+            return r
+    return None
+
+
+def mut_c14_close_hangs(run):
+    if not _c14(run):
+        return None
+    for i, ev in enumerate(run):
+        if ev["e"] == "CloseEnd":
+            r = copy.deepcopy(run)
+            del r[i]
+            return r
+    return None
+
+
+def mut_c14_op_hangs(run):
+    if not _c14(run):
+        return None
+    for i, ev in enumerate(run):
+        if ev["e"] == "OpEnd":
+            r = copy.deepcopy(run)
+            del r[i]
+            return r
+    return None
+
+
+def mut_c14_op_panics(run):
+    if not _c14(run):
+        return None
+    for i, ev in enumerate(run):
+        if ev["e"] == "OpEnd":
+            r = copy.deepcopy(run)
+            r[i]["panic"] = "send on closed channel"
+            return r
+    return None
+
+
+def mut_c14_constructor_leak(run):
+    if not _c14(run):
+        return None
+    for i, ev in enumerate(run):
+        if ev["e"] == "Construct" and ev["err"] != "":
+            r = copy.deepcopy(run)
+            r[i]["left"] = ["select @ records.(*ProviderManager).gcLoop"]
+            return r
+    return None
+
+
 MUTATIONS = {
+    "C14": [mut_c14_left, mut_c14_close_hangs, mut_c14_op_hangs, mut_c14_op_panics, mut_c14_constructor_leak],
     "C17": [mut_c17_wrong_recipient, mut_c17_missing_recipient, mut_c17_never_reprovided, mut_c17_stopped_readvertised, mut_c17_stale_addrs],
     "C15": [mut_c15_wrong_half, mut_c15_lan_preferred, mut_c15_dup_provider, mut_c15_over_count, mut_c15_private_referral, mut_c15_stored_private, mut_c15_advertised_loopback, mut_c15_union],
     "C16": [mut_c16_unsorted, mut_c16_not_nearest, mut_c16_stranger, mut_c16_group, mut_c16_crawl_twice, mut_c16_no_outcome, mut_c16_unreached, mut_c16_op_panic, mut_c16_swap_mix],
